@@ -7,7 +7,7 @@ from .c05 import env_of
 
 PLAN = {
     "quick": {"shards": 8, "cases": 400, "min_nontrivial": 1500, "budget_s": 300},
-    "thorough": {"shards": 16, "cases": 3500, "min_nontrivial": 20000, "budget_s": 1500},
+    "thorough": {"shards": 16, "cases": 6000, "min_nontrivial": 33600, "budget_s": 1500},
 }
 RULE = ("schemas with mutable defaults on typed lists/dicts (scalars, dict items for lists of schemas), nested schemas, "
         "config types and dynamic parts; configuration `a` receives a history of assignments, loads, resets and "
